@@ -516,6 +516,8 @@ func runDescr(w *bufio.Writer, seed int64, first, n int) {
 			}
 			fmt.Fprintf(w, "X %s %s\n", hx(fd.Path), strings.Join(changed, ","))
 		}
+		// the walk a search makes along a field path, on the same value
+		runPaths(w, r, pv, fds, T)
 		// a variant and the two compatibility verdicts
 		vrc, how := mutate(r, rc)
 		if len(vrc.fields) > 0 {
